@@ -6,7 +6,9 @@ Streams
   tree   : generated page directories (index / no index / untitled index, nested, hidden and
            backup names, other files, ordered_subpage valid / partial / duplicated / dangling,
            copy_subdir valid / dangling / colliding with deeper names, |page| |media| |url|
-           and relative links, [[entity]] links) -> real `get_page_tree` + `PagetreePage.writeout`
+           and relative links, [[entity]] links; project `encoding` utf-8 / iso-8859-1 / cp1252 / gbk / ...
+           with non-ASCII titles and text at every depth, files not decodable in the project's encoding)
+           -> real `get_page_tree` + `PagetreePage.writeout`
            with the MetaMarkdown / Documentation objects captured from one real `ford.main` run;
            (a) correspondence: PageNode tree, files below <out>/page, sidebar / breadcrumb / body
                hrefs of every page equal to the Lean model's;
@@ -48,6 +50,49 @@ DIR_NAMES = ["sub", "img", "d1", "d2", "media", "Sub", "x1", "deep"]
 OTHER_NAMES = ["data.txt", "img.png", "README", "plot.svg", "Makefile", "a.mdx", "notes.markdown", "b.MD"]
 HIDDEN_NAMES = [".hidden", ".hid.md", "x.md~", "old.txt~", ".git"]
 HIDDEN_DIRS = [".cache", "bak~"]
+
+# project encodings and, for each, text that can be written in it.  For every encoding other than
+# utf-8 the encoded text is NOT valid UTF-8 (checked below), so "read with the wrong encoding" is an
+# error and never silently another text; a utf-8 project may contain files written in FOREIGN ones.
+UTF8 = "utf-8"
+NONASCII = {
+    "utf-8": ["caf\u00e9", "\u03a9mega", "\u4e2d\u6587", "na\u00efve \u2192 x"],
+    "iso-8859-1": ["caf\u00e9", "\u00c0 la carte", "gr\u00fc\u00df"],
+    "cp1252": ["caf\u00e9", "\u0153uvre \u20ac5", "\u201cq\u201d"],
+    "gbk": ["\u4e2d\u6587", "\u6587\u6863 x"],
+    "shift_jis": ["\u65e5\u672c\u8a9e", "\u30c6\u30b9\u30c8 1"],
+    "koi8-r": ["\u0434\u043e\u043a", "\u0442\u0435\u0441\u0442 2"],
+}
+FOREIGN = ["iso-8859-1", "gbk", "koi8-r"]
+
+
+def _check_pools():
+    for enc, pool in NONASCII.items():
+        for t in pool:
+            b = ("title: T " + t + "\n").encode(enc)
+            if enc != UTF8:
+                try:
+                    b.decode("utf-8")
+                except UnicodeDecodeError:
+                    continue
+                raise AssertionError(f"{t!r} in {enc} is valid UTF-8")
+
+
+_check_pools()
+
+
+def readable(m, enc):
+    """the file's bytes decode in `enc` (pure ASCII files decode in every encoding used here)"""
+    w = (m or {}).get("wenc") or ""
+    return w == "" or w == enc
+
+
+def seen_title(e, enc):
+    """the title a reader using `enc` sees in the file, or None"""
+    m = e["meta"]
+    if m is None or m["title"] is None or not readable(m, enc):
+        return None
+    return m["title"]
 
 
 def is_hidden(name):
@@ -118,6 +163,38 @@ def gen_dir(rng, depth, maxdepth, counter, force_index=False, budget=None):
     return ch
 
 
+def encode_tree(rng, ch, enc, feat, depth=0):
+    """decide what every page file contains besides ASCII: text of the project's encoding (title and/or
+    body), or - in a utf-8 project - bytes of a foreign encoding (an undecodable, i.e. bad, page)"""
+    p_na = 0.25 if enc == UTF8 else 0.45
+    for e in ch:
+        if e["k"] == "D":
+            encode_tree(rng, e["ch"], enc, feat, depth + 1)
+            continue
+        m = e["meta"]
+        if m is None:
+            continue
+        r = rng.random()
+        if r < p_na:
+            t = rng.choice(NONASCII[enc])
+            where = rng.choice(["title", "body", "both"])
+            if where != "body" and m["title"] is not None:
+                m["title"] = m["title"] + " " + t
+            else:
+                where = "body"
+            if where != "title":
+                m["na"] = t
+            m["wenc"] = enc
+            feat.add("nonascii-top" if depth == 0 else "nonascii-below-top")
+            if enc != UTF8:
+                feat.add("nonascii-non-utf8-top" if depth == 0 else "nonascii-non-utf8-below-top")
+        elif enc == UTF8 and r < p_na + 0.03:
+            w = rng.choice(FOREIGN)
+            m["na"] = rng.choice(NONASCII[w])
+            m["wenc"] = w
+            feat.add("undecodable-page" + ("-index" if e["name"] == "index.md" else ""))
+
+
 def all_dir_names(ch, acc):
     for e in ch:
         if e["k"] == "D":
@@ -126,13 +203,13 @@ def all_dir_names(ch, acc):
     return acc
 
 
-def decorate(rng, ch, feat, deeper_names, p_dangling):
+def decorate(rng, ch, feat, deeper_names, p_dangling, enc=UTF8):
     """fill ordered_subpage / copy_subdir of the pages of one directory (recursively)"""
     names = [e["name"] for e in ch]
     sub_dirs = [e for e in ch if e["k"] == "D"]
     for e in ch:
         if e["k"] == "D":
-            decorate(rng, e["ch"], feat, deeper_names, p_dangling)
+            decorate(rng, e["ch"], feat, deeper_names, p_dangling, enc)
             continue
         m = e["meta"]
         if m is None or not e["name"].endswith(".md"):
@@ -184,7 +261,7 @@ def decorate(rng, ch, feat, deeper_names, p_dangling):
         else:
             # leaf page: copy_subdir only of directories that do not become pages (see notes/C17.md)
             if rng.random() < 0.12:
-                pool = [d["name"] for d in sub_dirs if not has_titled_index(d["ch"])] + ["nodir"]
+                pool = [d["name"] for d in sub_dirs if not has_titled_index(d["ch"], enc)] + ["nodir"]
                 m["copy"] = [rng.choice(pool)]
                 feat.add("copy-subdir-on-leaf")
             if rng.random() < 0.05:
@@ -199,9 +276,9 @@ def find_file(ch, name):
     return None
 
 
-def has_titled_index(ch):
+def has_titled_index(ch, enc=UTF8):
     e = find_file(ch, "index.md")
-    return e is not None and e["k"] == "F" and e["meta"] is not None and e["meta"]["title"] is not None
+    return e is not None and e["k"] == "F" and seen_title(e, enc) is not None
 
 
 # ---- the property's own reading of the page directory (NOT the model) ----
@@ -210,33 +287,37 @@ def spec_stem(name):
     return name[:-3]
 
 
-def spec_tree(ch, loc=()):
+def spec_tree(ch, loc=(), enc=UTF8):
     """Expected page tree per the property statement: a directory with a titled index.md is a
     sub-tree; every titled, visible *.md in it is one page at the same relative path; children
     ordered by ordered_subpage first (first occurrences, only names that exist), the rest
     alphabetically (code-point order of sorted()); visible non-Markdown files are assets.
+    The files are files of the project, i.e. text in the project's `encoding` (`enc`) at every
+    depth; a file that is not text in that encoding shows no title.
     Returns None or dict(path, title, src, subs, files, loc, copy)."""
-    if not has_titled_index(ch):
+    if not has_titled_index(ch, enc):
         return None
     idx = find_file(ch, "index.md")["meta"]
     names = sorted(e["name"] for e in ch if e["name"] != "index.md")
     order = [n for n in OrderedDict.fromkeys(idx["ordered"]) if n in names] + \
             [n for n in names if n not in idx["ordered"]]
     node = {"path": "/".join(loc + ("index.html",)), "title": idx["title"], "loc": loc, "subs": [], "files": [],
-            "copy": idx["copy"], "links": idx["links"], "entity": idx["entity"], "src": loc + ("index.md",)}
+            "copy": idx["copy"], "links": idx["links"], "entity": idx["entity"], "src": loc + ("index.md",),
+            "na": idx.get("na")}
     for n in order:
         if is_hidden(n):
             continue
         e = find_file(ch, n)
         if e["k"] == "D":
-            sub = spec_tree(e["ch"], loc + (n,))
+            sub = spec_tree(e["ch"], loc + (n,), enc)
             if sub is not None:
                 node["subs"].append(sub)
         elif is_md(n):
-            if e["meta"]["title"] is not None:
+            if seen_title(e, enc) is not None:
                 node["subs"].append({"path": "/".join(loc + (spec_stem(n) + ".html",)), "title": e["meta"]["title"],
                                      "loc": loc, "subs": [], "files": [], "copy": e["meta"]["copy"],
-                                     "links": e["meta"]["links"], "entity": e["meta"]["entity"], "src": loc + (n,)})
+                                     "links": e["meta"]["links"], "entity": e["meta"]["entity"], "src": loc + (n,),
+                                     "na": e["meta"].get("na")})
         else:
             node["files"].append(n)
     return node
@@ -288,10 +369,13 @@ def gen_tree(rng, k, feat):
     counter = [0]
     maxdepth = rng.choice([1, 2, 2, 3, 3, 4])
     ch = gen_dir(rng, 0, maxdepth, counter, force_index=(rng.random() < 0.95))
+    enc = UTF8 if rng.random() < 0.6 else rng.choice([e for e in NONASCII if e != UTF8])
+    feat.add("encoding-" + enc)
+    encode_tree(rng, ch, enc, feat)
     deeper = all_dir_names(ch, set())
-    decorate(rng, ch, feat, deeper, p_dangling=0.02)
-    add_links(rng, ch, feat, spec_tree(ch))
-    return ch
+    decorate(rng, ch, feat, deeper, p_dangling=0.02, enc=enc)
+    add_links(rng, ch, feat, spec_tree(ch, enc=enc))
+    return ch, enc
 
 
 # ---- writing it to disk ----
@@ -317,6 +401,8 @@ def md_text(e):
         body.append(" ".join(f"[l{i}]({('|' + a + '|') if a else ''}{r})" for i, (a, r) in enumerate(m["links"])))
         body.append("")
     body += ["BODYEND", ""]
+    if m.get("na"):
+        body += [f"NASTART {m['na']} NAEND", ""]
     if m["entity"]:
         body += ["ENTSTART [[foo]] ENTEND", ""]
     if lines:
@@ -330,6 +416,11 @@ def md_text(e):
     return "\n".join(head + body)
 
 
+def other_bytes(name):
+    """content of a non-page file: not text in any particular encoding"""
+    return b"content of " + name.encode() + b"\n\xff\xe9\x00\x81\n"
+
+
 def write_tree(root: Path, ch):
     root.mkdir(parents=True, exist_ok=True)
     for e in ch:
@@ -337,9 +428,9 @@ def write_tree(root: Path, ch):
         if e["k"] == "D":
             write_tree(p, e["ch"])
         elif e["meta"] is not None:
-            p.write_text(md_text(e))
+            p.write_bytes(md_text(e).encode(e["meta"].get("wenc") or "ascii"))
         else:
-            p.write_text("content of " + e["name"] + "\n")
+            p.write_bytes(other_bytes(e["name"]))
 
 
 def tokens(ch):
@@ -353,7 +444,7 @@ def tokens(ch):
             m = e["meta"] or {"title": None, "ordered": [], "copy": [], "links": []}
             out.append(US.join(["F", e["name"], "t" if m["title"] is not None else "n", m["title"] or "",
                                 RS.join(m["ordered"]), RS.join(m["copy"]),
-                                RS.join(a + GS + r for a, r in m["links"])]))
+                                RS.join(a + GS + r for a, r in m["links"]), m.get("wenc") or ""]))
     return out
 
 
@@ -404,8 +495,9 @@ class Impl:
         self.PagetreePage = ford.output.PagetreePage
         self.out = Path(os.path.realpath(self.out))
 
-    def run(self, ch):
-        """get_page_tree + PagetreePage.writeout for every node; returns the observation"""
+    def run(self, ch, enc=UTF8):
+        """get_page_tree (with the project's encoding `enc`, the way ford.main calls it) +
+        PagetreePage.writeout for every node; returns the observation"""
         shutil.rmtree(self.pages, ignore_errors=True)
         shutil.rmtree(self.out / "page", ignore_errors=True)
         (self.out / "page").mkdir(parents=True)
@@ -413,7 +505,7 @@ class Impl:
         obs = {"status": "ok", "nodes": [], "pages": {}, "out": [], "log": ""}
         with common.quiet() as buf:
             try:
-                tree = self.get_page_tree(self.page_dir, self.proj_copy, self.out, self.md, encoding=self.encoding)
+                tree = self.get_page_tree(self.page_dir, self.proj_copy, self.out, self.md, encoding=enc)
             except ValueError as e:
                 msg = str(e)
                 m = re.match(r"Requested page file '(.*)' does not exist", msg)
@@ -452,7 +544,7 @@ HREF_RE = re.compile(r"""(?:href|src)=["']([^"']*)["']""")
 
 
 def read_page(f: Path):
-    t = f.read_text(encoding="utf-8")
+    t = f.read_bytes().decode("utf-8", errors="replace")  # FORD writes its pages in UTF-8
     nav = []
     i = t.find('id="sidebar-toc"')
     j = t.find("id='text'")
@@ -470,7 +562,12 @@ def read_page(f: Path):
     i, j3 = t.find("ENTSTART"), t.find("ENTEND")
     if i >= 0 and j3 > i:
         ent = HREF_RE.findall(t[i:j3])
-    return {"nav": nav, "crumbs": crumbs, "body": body, "entity": ent, "has_sidebar": 'id="sidebar-toc"' in t}
+    na = None
+    i, j4 = t.find("NASTART"), t.find("NAEND")
+    if i >= 0 and j4 > i:
+        na = t[i + len("NASTART"):j4].strip()
+    return {"nav": nav, "crumbs": crumbs, "body": body, "entity": ent, "has_sidebar": 'id="sidebar-toc"' in t,
+            "na": na}
 
 
 def list_out(root: Path):
@@ -552,13 +649,13 @@ def link_target(node, alias, rest):
     return os.path.normpath(os.path.join("page", *node["loc"], rest))
 
 
-def defect_classes(ch):
+def defect_classes(ch, enc=UTF8):
     """Decidable description of the known-defect classes present in an input.
     Returns dict class -> set of affected things."""
     cls = {F_MISSING: [], F_DOTTED: [], F_GRANDPARENT: []}
 
     def walk(ch, loc, parent_copy, own_reachable):
-        if not has_titled_index(ch) or not own_reachable:
+        if not has_titled_index(ch, enc) or not own_reachable:
             return
         idx = find_file(ch, "index.md")["meta"]
         names = [e["name"] for e in ch]
@@ -568,13 +665,13 @@ def defect_classes(ch):
         for e in ch:
             if is_hidden(e["name"]):
                 continue
-            if e["k"] == "F" and is_md(e["name"]) and e["name"] != "index.md" and e["meta"]["title"] is not None:
+            if e["k"] == "F" and is_md(e["name"]) and e["name"] != "index.md" and seen_title(e, enc) is not None:
                 st = e["name"][:-3]
                 if "." in st[1:-1] or (len(st) > 1 and "." in st[1:] and not st.endswith(".")):
                     cls[F_DOTTED].append("/".join(loc + (e["name"],)))
             if e["k"] == "D":
                 if parent_copy is not None and e["name"] in parent_copy:
-                    if spec_tree(e["ch"], loc + (e["name"],)) is not None:
+                    if spec_tree(e["ch"], loc + (e["name"],), enc) is not None:
                         cls[F_GRANDPARENT].append("/".join(loc + (e["name"],)))
                 walk(e["ch"], loc + (e["name"],), idx["copy"], True)
 
@@ -582,11 +679,11 @@ def defect_classes(ch):
     return {k: v for k, v in cls.items() if v}
 
 
-def oracle(ch, im, src_root: Path, out: Path):
+def oracle(ch, im, src_root: Path, out: Path, enc=UTF8):
     """List of (why, finding id or None).  Empty = the property holds on this input."""
     fails = []
-    exp = spec_tree(ch)
-    classes = defect_classes(ch)
+    exp = spec_tree(ch, enc=enc)
+    classes = defect_classes(ch, enc)
     if im["status"] == "abort":
         fails.append((f"run aborted: requested page file {im['abort']} does not exist; no page is produced",
                       F_MISSING if im["abort"] in classes.get(F_MISSING, []) else None))
@@ -679,6 +776,9 @@ def oracle(ch, im, src_root: Path, out: Path):
                 elif resolve_href(n["path"], h) != t:
                     fails.append((f"link {'|' + a + '|' if a else ''}{r} on {n['path']} resolves to "
                                   f"{resolve_href(n['path'], h)}, expected {t}", None))
+        if n.get("na") is not None and pg.get("na") != n["na"]:
+            fails.append((f"text {n['na']!r} of {'/'.join(n['src'])} (project encoding {enc}) appears as "
+                          f"{pg.get('na')!r} on {n['path']}", None))
         if n["entity"]:
             got = [resolve_href(n["path"], h) for h in (pg["entity"] or [])]
             if got != ["module/foo.html"]:
@@ -831,10 +931,25 @@ def pages_dict(ch, prefix=""):
     return out
 
 
-def e2e_run(root: Path, ch, options=None):
+def written_in(ch, prefix=""):
+    """relative path -> encoding, for the page files that are not pure ASCII"""
+    out = {}
+    for e in ch:
+        if e["k"] == "D":
+            out.update(written_in(e["ch"], prefix + e["name"] + "/"))
+        elif e["meta"] is not None and e["meta"].get("wenc"):
+            out[prefix + e["name"]] = e["meta"]["wenc"]
+    return out
+
+
+def e2e_run(root: Path, ch, options=None, enc=UTF8):
     shutil.rmtree(root, ignore_errors=True)
-    pf = e2e.write_project(root, {"a.f90": "module foo\nend module foo\n"}, pages=pages_dict(ch), options=options)
-    # empty directories are not represented in pages_dict
+    if enc != UTF8:
+        options = dict(options or {}, encoding=enc)
+    pf = e2e.write_project(root, {"a.f90": "module foo\nend module foo\n"}, pages={"index.md": "placeholder"},
+                           options=options)
+    # the page files are written in their own encodings (and empty directories exist)
+    shutil.rmtree(root / "pages", ignore_errors=True)
     write_tree(root / "pages", ch)
     res = e2e.run_inprocess(pf)
     out = Path(os.path.realpath(res["out"])) if res["out"] else root / "doc"
@@ -861,13 +976,27 @@ def e2e_stream(rng, n, rep, scratch: Path, direct_impl, feats_hist):
     n_fail = 0
     for k in range(n):
         feat = set()
-        ch = gen_tree(rng, k, feat)
-        d_obs = direct_impl.run(ch)
-        obs, out = e2e_run(scratch / "e2e", ch)
+        ch, enc = gen_tree(rng, k, feat)
+        for f in feat:
+            if f.startswith("encoding-"):
+                feats_hist["e2e-" + f] = feats_hist.get("e2e-" + f, 0) + 1
+        d_obs = direct_impl.run(ch, enc)
+        d_fails = oracle(ch, d_obs, direct_impl.pages, direct_impl.out, enc)
+        obs, out = e2e_run(scratch / "e2e", ch, enc=enc)
         if obs["status"] != d_obs["status"] or (obs["status"] == "ok" and obs["out"] != d_obs["out"]):
             rep.tie_broken(f"e2e: ford.main and get_page_tree+PagetreePage differ on tree {k}: "
                            f"{obs['status']} / {d_obs['status']}",
-                           {"stream": "e2e", "tree": ch, "main": obs, "direct": {x: d_obs[x] for x in ('status', 'out')}})
+                           {"stream": "e2e", "tree": ch, "encoding": enc, "main": obs,
+                            "direct": {x: d_obs[x] for x in ('status', 'out')}})
+            if not d_fails:
+                # the direct run satisfies the property on this directory, the complete run gives other pages
+                exp = spec_tree(ch, enc=enc)
+                want = sorted(n["path"] for n in spec_preorder(exp)) if exp else []
+                got = sorted(x for x in obs.get("out", []) if x.endswith(".html"))
+                if obs["status"] in ("ok", "none") and got != want:
+                    rep.failing_input({"stream": "e2e", "tree": ch, "encoding": enc, "files": pages_dict(ch),
+                                       "why": f"complete ford run (encoding: {enc}) wrote pages {got}, expected {want}"},
+                                      None)
             continue
         if obs["status"] == "ok":
             for p in d_obs["pages"]:
@@ -882,7 +1011,7 @@ def e2e_stream(rng, n, rep, scratch: Path, direct_impl, feats_hist):
                                        "why": f"[[foo]] on page {p} resolves to {ent}"}, None)
                 if a != b:
                     rep.tie_broken(f"e2e: page {p} differs between ford.main and direct run on tree {k}",
-                                   {"stream": "e2e", "tree": ch, "main": a, "direct": b})
+                                   {"stream": "e2e", "tree": ch, "encoding": enc, "main": a, "direct": b})
                     break
     return n_fail
 
@@ -924,54 +1053,68 @@ def probes(rep, scratch: Path):
 # --------------------------------------------------------------------------
 
 
-def shrink(ch, still_fails, budget=250):
-    """greedy: drop entries / metadata items while the predicate still holds"""
+def shrink(ch, still_fails, budget=300):
+    """greedy: drop entries (outermost first, so whole sub-trees go early), then metadata items and
+    non-ASCII content, while the predicate still holds"""
     import copy
 
     cur = copy.deepcopy(ch)
-    changed = True
-    while changed and budget > 0:
-        changed = False
 
-        def sites(c, path=()):
-            for i, e in enumerate(c):
-                yield path + (i,)
-                if e["k"] == "D":
-                    yield from sites(e["ch"], path + (i,))
+    def sites(c, path=()):
+        for i, e in enumerate(c):
+            yield path + (i,)
+            if e["k"] == "D":
+                yield from sites(e["ch"], path + (i,))
 
-        for site in list(sites(cur)):
-            if budget <= 0:
-                break
-            cand = copy.deepcopy(cur)
-            c = cand
-            for i in site[:-1]:
-                c = c[i]["ch"]
-            if site[-1] >= len(c):
-                continue
-            e = c[site[-1]]
-            tries = []
-            if not (len(site) == 1 and e["name"] == "index.md"):
-                tries.append(("drop", None))
-            if e["k"] == "F" and e["meta"]:
-                for key in ("links", "ordered", "copy"):
-                    if e["meta"][key]:
-                        tries.append(("clear", key))
-            for what, key in tries:
-                cand2 = copy.deepcopy(cand)
-                c2 = cand2
-                for i in site[:-1]:
-                    c2 = c2[i]["ch"]
-                if what == "drop":
-                    del c2[site[-1]]
+    def at(tree, site):
+        c = tree
+        for i in site[:-1]:
+            c = c[i]["ch"]
+        return c, site[-1]
+
+    def edits(e, site):
+        if not (len(site) == 1 and e["name"] == "index.md"):
+            yield ("drop", None)
+        if e["k"] == "F" and e["meta"]:
+            for key in ("links", "ordered", "copy"):
+                if e["meta"][key]:
+                    yield ("clear", key)
+            if e["meta"].get("wenc") and (e["meta"]["title"] is None or e["meta"]["title"].isascii()):
+                yield ("ascii", None)
+
+    progress = True
+    while progress and budget > 0:
+        progress = False
+        for phase in ("drop", "rest"):
+            order = sorted(sites(cur), key=len)
+            k = 0
+            while k < len(order) and budget > 0:
+                site = order[k]
+                c, i = at(cur, site)
+                done = False
+                for what, key in list(edits(c[i], site)):
+                    if (what == "drop") != (phase == "drop"):
+                        continue
+                    cand = copy.deepcopy(cur)
+                    c2, _ = at(cand, site)
+                    if what == "drop":
+                        del c2[i]
+                    elif what == "ascii":
+                        c2[i]["meta"]["wenc"] = ""
+                        c2[i]["meta"]["na"] = None
+                    else:
+                        c2[i]["meta"][key] = []
+                    budget -= 1
+                    if still_fails(cand):
+                        cur = cand
+                        progress = True
+                        done = what == "drop"
+                        if done:
+                            break
+                if done:
+                    order = sorted(sites(cur), key=len)  # same k now names the next entry
                 else:
-                    c2[site[-1]]["meta"][key] = []
-                budget -= 1
-                if still_fails(cand2):
-                    cur = cand2
-                    changed = True
-                    break
-            if changed:
-                break
+                    k += 1
     return cur
 
 
@@ -1005,6 +1148,7 @@ def run(tier: str, seed: int, replay: str | None = None) -> int:
     samples = []
     n_bad_corr = 0
     n_oracle_fail = 0
+    n_shrunk = 0
     with common.scratch_dir() as d:
         d = Path(os.path.realpath(d))
         impl = Impl(ford, d / "proj")
@@ -1017,32 +1161,33 @@ def run(tier: str, seed: int, replay: str | None = None) -> int:
             rp = json.loads(Path(replay).read_text())
             for c in rp.get("cases", []) + rp.get("first_disagreements", []):
                 if "tree" in c and isinstance(c["tree"], list):
-                    trees.append((c["tree"], {"replay"}))
+                    trees.append((c["tree"], {"replay"}, c.get("encoding") or UTF8))
         # the witnesses of the known findings are always replayed
         for w in (WITNESS_MISSING, WITNESS_GRANDPARENT, WITNESS_DOTTED):
-            trees.append((w, {"witness"}))
+            trees.append((w, {"witness"}, UTF8))
         for k in range(n_tree):
             feat: set[str] = set()
-            trees.append((gen_tree(rng, k, feat), feat))
-        reqs = [["c17.tree", variant, str(impl.out), cwd, *tokens(ch)] for ch, _ in trees]
+            ch, enc = gen_tree(rng, k, feat)
+            trees.append((ch, feat, enc))
+        reqs = [["c17.tree", variant, str(impl.out), cwd, enc, *tokens(ch)] for ch, _, enc in trees]
         model = drv.batch(reqs)
         # the oracle's reading of the statement (spec_tree, Python) and the specification the theorems
         # are stated against (expPages, Lean) must agree on every generated directory
-        lean_spec = drv.batch([["c17.spec", *tokens(ch)] for ch, _ in trees])
-        for (ch, _), ls in zip(trees, lean_spec):
-            st = spec_tree(ch)
+        lean_spec = drv.batch([["c17.spec", enc, *tokens(ch)] for ch, _, enc in trees])
+        for (ch, _, enc), ls in zip(trees, lean_spec):
+            st = spec_tree(ch, enc=enc)
             mine = sorted(n["path"] for n in spec_preorder(st)) if st else []
             if ls[0] != "ok" or sorted(ls[1:]) != mine:
                 rep.tie_broken("specification: Lean expPages and the harness oracle's expected pages differ",
-                               {"stream": "spec", "files": pages_dict(ch), "lean": ls[1:], "oracle": mine})
+                               {"stream": "spec", "files": pages_dict(ch), "encoding": enc, "lean": ls[1:], "oracle": mine})
                 break
 
-        def check_one(ch):
-            im = impl.run(ch)
-            return im, oracle(ch, im, impl.pages, impl.out)
+        def check_one(ch, enc):
+            im = impl.run(ch, enc)
+            return im, oracle(ch, im, impl.pages, impl.out, enc)
 
-        for k, ((ch, feat), mo_raw) in enumerate(zip(trees, model)):
-            im, fails = check_one(ch)
+        for k, ((ch, feat, enc), mo_raw) in enumerate(zip(trees, model)):
+            im, fails = check_one(ch, enc)
             mo = parse_model(mo_raw)
             status_hist[im["status"].split(":")[0]] = status_hist.get(im["status"].split(":")[0], 0) + 1
             for f in feat:
@@ -1060,7 +1205,7 @@ def run(tier: str, seed: int, replay: str | None = None) -> int:
             if diff is not None:
                 n_bad_corr += 1
                 rep.tie_broken(f"correspondence tree (variant {variant}): {diff}",
-                               {"stream": "tree", "tree": ch, "files": pages_dict(ch), "diff": diff,
+                               {"stream": "tree", "tree": ch, "encoding": enc, "files": pages_dict(ch), "diff": diff,
                                 "impl": {x: im.get(x) for x in ("status", "abort", "nodes", "out")},
                                 "model": {x: mo.get(x) for x in ("status", "abort", "nodes", "out")}})
             if fails:
@@ -1072,22 +1217,25 @@ def run(tier: str, seed: int, replay: str | None = None) -> int:
                     ids = sorted(ids)
                     fid = ids[0]
                     for other in ids[1:]:
-                        rep.failing_input({"stream": "tree", "files": pages_dict(ch),
+                        rep.failing_input({"stream": "tree", "files": pages_dict(ch), "encoding": enc,
                                            "why": [f[0] for f in fails if f[1] == other][:6]}, other)
                     fails = [f for f in fails if f[1] == fid]
                 case_tree = ch
-                if fid is None and n_oracle_fail <= 3:
+                if fid is None and n_shrunk < 3:
+                    n_shrunk += 1
                     # shrink unlisted failures to a small replay
                     def still(c):
-                        _, fl = check_one(c)
+                        _, fl = check_one(c, enc)
                         return any(x[1] is None for x in fl)
                     case_tree = shrink(ch, still)
-                    im2, fails2 = check_one(case_tree)
+                    im2, fails2 = check_one(case_tree, enc)
                     fails = fails2 or fails
-                rep.failing_input({"stream": "tree", "tree": case_tree, "files": pages_dict(case_tree),
+                rep.failing_input({"stream": "tree", "tree": case_tree, "encoding": enc,
+                                   "files": pages_dict(case_tree),
+                                   "files_written_in": written_in(case_tree),
                                    "why": [f[0] for f in fails][:6],
-                                   "defect_classes_in_input": {k2: v for k2, v in defect_classes(case_tree).items()},
-                                   "expected_pages": [n["path"] for n in spec_preorder(spec_tree(case_tree))] if spec_tree(case_tree) else None,
+                                   "defect_classes_in_input": {k2: v for k2, v in defect_classes(case_tree, enc).items()},
+                                   "expected_pages": [n["path"] for n in spec_preorder(spec_tree(case_tree, enc=enc))] if spec_tree(case_tree, enc=enc) else None,
                                    "observed_pages": [n[0] for n in im.get("nodes", [])] if case_tree is ch else None},
                                   fid)
         e2e_stream(rng, n_e2e, rep, d, impl, feats_hist)
@@ -1113,6 +1261,9 @@ def run(tier: str, seed: int, replay: str | None = None) -> int:
     )
     rep.assumptions += [
         "Python-Markdown, Jinja2, meta_preprocessor and shutil are on the implementation side only (exercised, not modelled)",
+        "codecs are on the implementation side only; the model knows `pure ASCII` / `written in encoding e` per file and "
+        "treats reading a non-ASCII file with another encoding as an error (generated: only bytes that are invalid UTF-8 "
+        "read as UTF-8, where that is exact); encodings are ASCII-compatible ones",
         "os.path.relpath / Path.resolve are modelled on normalised segment lists (no symlinks inside the page directory)",
         "ordered_subpage / copy_subdir items are plain names (no '/' or '..'; C19 covers escaping paths); "
         "copy_subdir on a non-index page only names directories that do not become pages",
